@@ -42,12 +42,17 @@ Definition dec_field (t : bytes) : option nat :=
   | _ :: _ => if forallb is_decch t then Some (N.to_nat (N_of_dec t)) else None
   end.
 
+(* "o..." / "b..." : the k-specs that Driver_ser.v does not know *)
+Definition is_ext_kspec (k : bytes) : bool :=
+  match k with b0 :: _ => (b0 =? 111) || (b0 =? 98) | [] => false end.
+
 Definition kspec_of (k : bytes) : option kspec :=
   match k with
-  | [45] => Some KNever
-  | 111 :: t => match dec_field t with Some n => Some (KOnce n) | None => None end
-  | 98 :: t => match dec_field t with Some n => Some (KCap n) | None => None end
-  | _ => Some (KPersist (N.to_nat (N_of_dec k)))
+  | b0 :: t =>
+    if b0 =? 111 then match dec_field t with Some n => Some (KOnce n) | None => None end
+    else if b0 =? 98 then match dec_field t with Some n => Some (KCap n) | None => None end
+    else Some (match k with [45] => KNever | _ => KPersist (N.to_nat (N_of_dec k)) end)     (* as Driver_ser.v *)
+  | [] => Some (KPersist 0)                                                                  (* as Driver_ser.v: N_of_dec [] = 0 *)
   end.
 
 (* `let mut w = rw::ChunkWriter::new(0);` followed by the assignments of the `wf` arm *)
